@@ -27,6 +27,7 @@ ASSUMPTIONS = [
     "image shapes (2,2,2), (3,2,2), (4,4,4), (8,8,8) (512 features: beyond the 500-feature switch of the 'auto' solver); N up to 40",
     "components are compared only where the singular-value gap exceeds 1e-3 relative; signs of components are free; cluster label names are free",
     "scikit-learn k-means and numpy SVD are trusted",
+    "added during the seeding waves: integer / float64 stacks, read-outs edited by the caller, numpy images transformed three times, boxes of (33,32,32) with 24 / 30 images (thorough: 40^3 with 48, row-chunked)",
 ]
 
 SHAPES = [(2, 2, 2), (3, 2, 2), (4, 4, 4), (8, 8, 8)]
